@@ -5,7 +5,7 @@ package main
 var (
 	rCODEC1 = &Rule{Name: "CODEC.1", Floor: 44, Fn: ruleCODEC1,
 		Text: "opcode constants = OpcodeNames keys = OpcodeOperands keys = VM dispatch case labels (dense from 0); default arm is an error arm; loop head is `ip++; switch insts[ip]`"}
-	rCODEC2 = &Rule{Name: "CODEC.2", Floor: 100, Fn: ruleCODEC2,
+	rCODEC2 = &Rule{Name: "CODEC.2", Floor: 80, Fn: ruleCODEC2,
 		Text: "every Compiler.emit / MakeInstruction call with a determinable opcode passes exactly len(OpcodeOperands[op]) operands"}
 	rCODEC3 = &Rule{Name: "CODEC.3", Floor: 48, Fn: ruleCODEC3,
 		Text: "per VM arm (abstract interpretation of ip relative to the opcode byte): every operand byte read belongs to a whole operand and is combined with the shift MakeInstruction wrote it at; every operand is decoded; every fall-through path advances ip by exactly the operand widths; MakeInstruction/ReadOperands are big-endian inverses"}
@@ -223,6 +223,8 @@ var (
 		Text: "a function body is a block below its parameters: the function-literal arm compiles node.Body through the block-statement arm, which forks a block scope"}
 	rMOD6 = &Rule{Name: "MOD.6", Floor: 5, Fn: ruleMOD6,
 		Text: "one name per module: compileModule hands one unmodified parameter to the cycle check, the module cache (load and store) and the forked compiler"}
+	rJSON8 = &Rule{Name: "JSON.8", Floor: 2, Fn: ruleJSON8,
+		Text: "every object key and string value the JSON decoder hands out is unquote's result on every path (escapes resolved, malformed UTF-8 replaced, as in encoding/json)"}
 	rJSON7 = &Rule{Name: "JSON.7", Floor: 2, Fn: ruleJSON7,
 		Text: "the bytes validated are the bytes given: json.Decode passes its parameter, unmodified, to the validity automaton"}
 	rLIT2 = &Rule{Name: "LIT.2", Floor: 2, Fn: ruleLIT2,
@@ -256,7 +258,7 @@ func allProperties() []*Property {
 		{ID: "C01",
 			Decided:    "compiler, generic codec, opcode tables and every VM arm agree byte for byte on the instruction format.",
 			NotDecided: "the language semantics themselves (values computed by operators, control flow, scoping, builtins).",
-			Rules:      []*Rule{rCODEC1, rCODEC2, rCODEC3, rCODEC4, rFRESH, rOPARM, rOPDOC, rSEM, rSEM3, rIDX1, rTWIN1, rFAM1, rSYM1, rSYM3, rCALL1, rSTK1, rSTK2, rBLT1, rALIAS1, rSCOPE2, rSEM4}},
+			Rules:      []*Rule{rCODEC1, rCODEC2, rCODEC3, rCODEC4, rFRESH, rOPARM, rOPDOC, rSEM, rSEM3, rIDX1, rTWIN1, rFAM1, rSYM1, rSYM3, rCALL1, rSTK1, rSTK2, rBLT1, rALIAS1, rSCOPE2, rSEM4, rCONV2}},
 		{ID: "C02",
 			Decided:    "instruction format agreement; opcode-class agreement.",
 			NotDecided: "stack balance and jump well-formedness for all compiled programs.",
@@ -320,7 +322,7 @@ func allProperties() []*Property {
 		{ID: "C18",
 			Decided:    "the validity automaton equals encoding/json's state by state; validate-before-decode; number typing by '.', 'e', 'E'; escape tables equal the reference's; encoder arms for all named types.",
 			NotDecided: "round-trip equality of values; number and string values after decoding; float formatting.",
-			Rules:      []*Rule{rJSON1, rJSON2, rJSON3, rJSON4, rJSON5, rJSON6, rJSON7}},
+			Rules:      []*Rule{rJSON1, rJSON2, rJSON3, rJSON4, rJSON5, rJSON6, rJSON7, rJSON8}},
 		{ID: "C19",
 			Decided:    "the wiring of the stdlib modules: adapters do what their function type says; table keys name the Go function/constant they wrap; hand-written wrappers call the function their key names with arguments in order; documentation and tables agree; generated source is in sync.",
 			NotDecided: "the Go functions' results (they are the specification); value-level behaviour of hand-written wrappers (size limits, defaults).",
